@@ -1,5 +1,4 @@
 import Pymeeus.Refine.Calendar
-import Pymeeus.Refine.Instant
 /-
 C01 — Calendar date <-> Julian Day is an exact bijection on civil days.
 
@@ -103,14 +102,6 @@ theorem month_names (s : String) (i : Nat) (hi : i < 12)
   unfold get_month_str
   rcases h with h | h <;> rw [h] <;> interval_cases i <;> decide
 
-/-- "building an Epoch … and reading the date back returns exactly that date" at ANY time of day: date + day fraction
-    `0 ≤ f < 1` reads back as the same date and the same fraction (the century step of `get_date` is taken on the
-    integer day number, not on the instant). -/
-theorem roundtrip_instant (y m d : Int) (f : ℚ) (h : Valid y m d) (hf0 : 0 ≤ f) (hf1 : f < 1) :
-    get_date (compute_jde y m ((d : ℚ) + f)) = .ok (y, m, (d : ℚ) + f) := by
-  rw [compute_jde_frac y m d f hf0 hf1 h]
-  exact get_date_valid y m d f h hf0 hf1
-
 /-- The calendar switch-over at its boundary values: 4 October 1582 (Julian) is JD 2299159.5, the next day 15 October
     (Gregorian) is JD 2299160.5 exactly, and that very instant reads back as 15 October, the instant before as 4 October. -/
 theorem reform_boundary :
@@ -185,6 +176,59 @@ theorem feb29_by_name :
     (check_values 1900 (get_month_str "FEB") 29 0 0 0).isOk = false ∧
     (check_values 2000 (get_month_str "FEB") 30 0 0 0).isOk = false := by
   decide +kernel
+
+/-- validation with a FRACTIONAL day (the time of day folded into the day number): accepted exactly when
+    1 ≤ day < month length + 1 — the boundary value `length + 1` itself is refused, `length + 0.999…` is accepted -/
+theorem constructor_accepts_rational_day_iff (y m : Int) (d : ℚ) :
+    (∃ j, epoch_ymd y m d = .ok j) ↔ (-4712 ≤ y ∧ 1 ≤ m ∧ m ≤ 12 ∧ 1 ≤ d ∧ d < (monthLen y m : ℚ) + 1) := by
+  by_cases hy : y < -4712
+  · rw [refuses_year_below_range y m d hy]
+    constructor
+    · rintro ⟨j, hj⟩; cases hj
+    · rintro ⟨h, _⟩; omega
+  by_cases hm : m < 1 ∨ 12 < m
+  · rw [refuses_month_out_of_range y m d hm]
+    constructor
+    · rintro ⟨j, hj⟩; cases hj
+    · rintro ⟨_, h1, h2, _⟩; omega
+  have hm1 : 1 ≤ m := by omega
+  have hm12 : m ≤ 12 := by omega
+  have hml := monthLen_ge y m
+  have hmlq : ((monthLen y m : Int) : ℚ) ≤ 31 := by exact_mod_cast hml.2
+  have hg : get_month_int m = .ok m := by
+    unfold get_month_int
+    have : (m ≥ 1 ∧ m ≤ 12) := ⟨hm1, hm12⟩
+    simp [this]
+  unfold epoch_ymd check_values
+  rw [hg]
+  have z1 : plt (0.0 : ℚ) 0 = false := by decide +kernel
+  have z24 : ple (24 : ℚ) 0.0 = false := by decide +kernel
+  have z60 : ple (60 : ℚ) 0.0 = false := by decide +kernel
+  simp only [hy, if_false, z1, z24, z60, Bool.or_false, Bool.false_eq_true, month_limit_eq y m hm1 hm12]
+  unfold plt ple ofInt
+  by_cases c1 : d < 1
+  · simp only [c1, decide_true, Bool.true_or, if_true]
+    constructor
+    · rintro ⟨j, hj⟩; cases hj
+    · rintro ⟨_, _, _, h, _⟩; linarith
+  by_cases c2 : (32 : ℚ) ≤ d
+  · simp only [c1, c2, decide_true, decide_false, Bool.false_or, if_true]
+    constructor
+    · rintro ⟨j, hj⟩; cases hj
+    · rintro ⟨_, _, _, _, h⟩; linarith
+  by_cases c3 : (((monthLen y m + 1 : Int)) : ℚ) ≤ d
+  · simp only [c1, c2, c3, decide_true, decide_false, Bool.false_or, Bool.false_eq_true, if_false, if_true]
+    constructor
+    · rintro ⟨j, hj⟩; cases hj
+    · rintro ⟨_, _, _, _, h⟩; push_cast at c3; linarith
+  · simp only [c1, c2, c3, decide_false, Bool.false_or, Bool.false_eq_true, if_false]
+    constructor
+    · intro _; push_cast at c3; exact ⟨by omega, hm1, hm12, by linarith, by linarith⟩
+    · intro _; exact ⟨_, rfl⟩
+
+example : (∃ j, epoch_ymd 2000 2 29.999 = .ok j) ∧ ¬ (∃ j, epoch_ymd 2000 2 30 = .ok j) := by
+  rw [constructor_accepts_rational_day_iff, constructor_accepts_rational_day_iff]
+  norm_num [monthLen, Spec.leap]
 
 -- Non-vacuity: the hypotheses are met by concrete, non-trivial inputs.
 example : py_strip_capitalize " feb " = months_mmm[1]! := by decide
